@@ -205,6 +205,9 @@ def _random_chain(args):
                             from renormalizer.mps import MpDm
                             base = st.random_mps(model, qntot, 3, (seed, "c05", k, rep))
                             mps = MpDm.from_mps(base).add(MpDm.from_mps(st.random_mps(model, qntot, 3, (seed, "c05c", k, rep))).scale(0.5))
+                    except FloatingPointError:
+                        continue          # Mps.random cannot populate this sector at this bond dimension: not a case
+                    try:
                         mps.ensure_left_canonical()
                         if direction == "right":
                             mps.canonicalise()
